@@ -313,7 +313,7 @@ MUTANTS = {
     "outpoint-upper-bound-off": _m(C, "_validate_message", "<= 0xffffffffffffffff",
                                    "<= 0xfffffffffffffffff"),
     "ud-value-length-unchecked": _m(C, "_validate_signer_heartbeat",
-                                    "self.SIGNER_HBT_UD_VALUE_SIZE)\n", "32)\n"),
+                                    "self.SIGNER_HBT_UD_VALUE_SIZE)", "32)"),
     "brothers-length-unchecked": _m(C, "_validate_advance_blockchain",
                                     'or len(request["brothers"]) != len(request["blocks"])', ""),
     "empty-proof-accepted": _m(C, "_validate_auth", 'or len(auth["receipt_merkle_proof"]) == 0', ""),
